@@ -279,6 +279,11 @@ def judge(ses, replay_oracle=True):
         # was forgotten by drop=True while the entry was already in the redo list
         stale = (st.kind == "redo" and any(L.nested_paths(p, q) for j in closure
                                            for p in L.spec_paths(src_specs[j]) for q in dropped_paths))
+        if any(L.nested_paths(p, q) for j in closure for p in L.spec_paths(src_specs[j]) for q in ghosts):
+            # an unrecorded change to an ignored resource meets the undo / redo of a recorded one that touches the
+            # same resource: the history cannot know about it (by design); outside the property
+            tainted = True
+            info["ghost_overlap"] = info.get("ghost_overlap", 0) + 1
         if st.raised and getattr(st, "stop", None) is not None and st.codes == [6]:
             # interrupted by the task handle: the changes already moved to the other list are undone / redone
             # completely, the interrupted one not at all - nothing in between
@@ -301,9 +306,18 @@ def judge(ses, replay_oracle=True):
                 info["replays"] += 1
                 exp, why = L.replay_tree(ses.tree, [sp for (_, sp) in in_force])
                 if exp is None or exp != st.post_tree:
+                    # the entries that WERE completed may carry the shape of a known finding (a move onto an occupied
+                    # path, a stale redo entry): the same narrow attribution as for an uninterrupted step
+                    m_over = [pq for o in moved for pq in snaps.get(id(o), (0, 0, False, []))[3]]
+                    diff = (sorted(p for p in set(exp) | set(st.post_tree) if exp.get(p, 0) != st.post_tree.get(p, 0))
+                            if exp is not None else [])
+                    names = set(q.split("/")[-1] for pq in m_over for q in pq)
+                    only_over = bool(diff) and bool(m_over) and all(
+                        d.split("/")[-1] in names or any(L.nested_paths(d, q) for pq in m_over for q in pq) for d in diff)
+                    cls = SIG_DROP if (stale and moved) else SIG_OVERWRITE if only_over else None
                     bad(idx, "interrupted-partial", "%s interrupted by the task handle (stop at notification %s) after %d "
                                                     "completed entries: the tree is not the one of the entries still in force (%s)"
-                        % (st.kind, st.stop, len(moved), why or "it differs"))
+                        % (st.kind, st.stop, len(moved), why or ("it differs at " + ", ".join(diff[:4]))), cls)
                     tainted = True
             info["interrupted"] = info.get("interrupted", 0) + 1
             continue
@@ -322,11 +336,6 @@ def judge(ses, replay_oracle=True):
             tainted = True
             info["tainted_at"] = info["tainted_at"] if info["tainted_at"] is not None else idx
             continue
-        if any(L.nested_paths(p, q) for j in closure for p in L.spec_paths(src_specs[j]) for q in ghosts):
-            # an unrecorded change to an ignored resource meets the undo / redo of a recorded one that touches the
-            # same resource: the history cannot know about it (by design); outside the property
-            tainted = True
-            info["ghost_overlap"] = info.get("ghost_overlap", 0) + 1
         info["sel_steps"] += 1
         deps = list(st.deps or [])
         R = list(st.returned_objs or [])
@@ -546,7 +555,10 @@ def run(ctx):
                 "from the middle of the list) or takes several changes; distinct by (tree, limit, concrete script)."
                 % ctx.scale(4, 5))
     depth = ctx.scale(4, 5)
-    plans = catalogue() + stop_family() + reload_family(ctx.rng) + exhaustive_scripts(depth)
+    import os as _os
+    # development aid: C11_SKIP_EXHAUSTIVE=1 leaves out the seed-independent exhaustive family (seed sweeps)
+    plans = catalogue() + stop_family() + reload_family(ctx.rng) + (
+        [] if _os.environ.get("C11_SKIP_EXHAUSTIVE") == "1" else exhaustive_scripts(depth))
     n_rand = ctx.scale(120, 1500)
     for k in range(n_rand):
         quirks = (k % 3 == 2)
